@@ -67,6 +67,15 @@ TrEnd ==
   /\ IsEv("end") /\ spc = "read" /\ cur = NoItem
   /\ \A i \in Reqs : rpc[i] \in {"off", "finished"}
   /\ UNCHANGED vars
+(* C07 as seen from this family: every get/set iq the handler was given (the recording    *)
+(* handler writes nothing) got exactly one reply on the wire, also when its id collides     *)
+(* with a pending request of our own                                                        *)
+Gets(id) == Cardinality({k \in 1..Len(handled) : handled[k].kind = "iq" /\ ~handled[k].resp
+                                                   /\ (handled[k].id = id \/ (handled[k].id = Unknown /\ id \notin Reqs))})
+TrReplies ==
+  /\ IsEv("replies")
+  /\ \A k \in 1..Len(Trace[l].items) : Trace[l].items[k].n = Gets(Trace[l].items[k].id)
+  /\ UNCHANGED vars
 TrSendFail == IsEv("sendfail") /\ Send(Trace[l].i, FALSE)
 
 Silent ==
@@ -81,7 +90,7 @@ TNext ==
   /\ l < EndOf(t0)
   /\ \/ TrReset \/ TrPeer \/ TrCancel \/ TrRegistered \/ TrSent \/ TrWoke \/ TrDeregistered \/ TrRet
      \/ TrCloseResp \/ TrLookup \/ TrHandoffPoint \/ TrHanded \/ TrCtxDone \/ TrResume \/ TrHandler
-     \/ TrOtherHook \/ TrServeRet \/ TrSendFail \/ TrEnd \/ Silent
+     \/ TrOtherHook \/ TrServeRet \/ TrSendFail \/ TrReplies \/ TrEnd \/ Silent
   /\ UNCHANGED t0
   /\ Inv'
 
